@@ -119,7 +119,7 @@ func (p *c10) build(levels int, kinds [][]int, layout int, nameForm int, flag bo
 func (p *c10) check(rec *core.Recorder, class string, set *mt.TmplSet, main string, ctx map[string]mt.Val, nontrivial bool) {
 	in := mt.NewInterp(set)
 	want, werr := in.Render(main, ctx)
-	srcs := (&mt.Printer{}).SourceSet(set)
+	srcs := maybeLarge(rec, (&mt.Printer{}).SourceSet(set))
 	canon := canonSrcs(srcs) + canonCtx(ctx)
 	if werr != nil {
 		rec.Count("skipped-referr", 1)
